@@ -75,7 +75,7 @@ type c04CrashDir struct {
 }
 
 type c04Op struct {
-	Op      string       `json:"op"` // in | own | crash | restart
+	Op      string       `json:"op"` // in | own | sync | crash | restart
 	T       string       `json:"t"`  // in: start | tprop | prop | polka | twait | any | next
 	R       int32        `json:"r"`
 	V       string       `json:"v"`
@@ -1172,6 +1172,19 @@ func (e *c04Env) step(op *c04Op) {
 			}
 		}
 		e.dir = nil
+	case "sync":
+		// what the two background goroutines do on their own: the WAL's flush ticker
+		// (processFlushTicks -> FlushAndSync) and the group's size check (RotateFile)
+		if e.dead {
+			return
+		}
+		if op.T == "rotate" {
+			e.rwal.Group().RotateFile()
+		} else if err := e.rwal.FlushAndSync(); err != nil {
+			panic(err)
+		}
+		e.wal.noteSync("Background:" + op.T)
+		e.emit(map[string]interface{}{"ev": "Sync", "how": op.T, "files": e.rwal.Group().MaxIndex()})
 	case "crash":
 		if e.dead {
 			return
@@ -1210,6 +1223,11 @@ func (e *c04Env) randomOps(maxOps int) {
 		}
 		cs := e.cs
 		var op c04Op
+		if len(e.bounds) > 0 && e.rng.Intn(8) == 0 {
+			op = c04Op{Op: "sync", T: []string{"ticker", "rotate"}[e.rng.Intn(2)]}
+			e.step(&op)
+			continue
+		}
 		if len(cs.internalMsgQueue) > 0 && e.rng.Intn(3) != 0 {
 			op = c04Op{Op: "own"}
 		} else {
